@@ -28,7 +28,7 @@ def generate(seed, run, tier):
     r = stream(seed, PROP, run, 'gen')
     big = tier == 'thorough'
     name = V.OBS_NAMES[run % 4] if r.random() < 0.7 else r.choice(V.OBS_NAMES)
-    area = V.gen_area(r, name, 9 if big else 7)
+    area = V.gen_area(r, name, 9 if big else 7, behind_ok='any')
     world = V.gen_view_world(r, 8 if big else 6, 8 if big else 6)
     if r.random() < 0.12:
         # boundary condition: the view covers the grid exactly for one pose
@@ -115,6 +115,12 @@ def execute(record, ctx):
             else:
                 o = sut(obs_f, state, rng=V.mk_rng(mode, seed))
                 site = name
+            if isinstance(o, Raised) and name == 'partially_occluded' and area[0][1] != 0:
+                # documented for views that end at the agent's row; elsewhere a refusal is fine (a result is judged)
+                ctx.count('refused_outside_documented_domain')
+                continue
+            if name == 'partially_occluded' and area[0][1] != 0:
+                ctx.probe('partially_occluded_off_row_view_answered')
             if isinstance(o, Raised):
                 ctx.violate('view', 'observation_raised', site, o.type, i, f'area {area} agent {w["agent"][:3]} on {w["h"]}x{w["w"]}: {o!r}')
                 continue
